@@ -1,5 +1,7 @@
 import GrmVerif.Model.SearchImpl
 import GrmVerif.Model.RecLive
+import GrmVerif.Model.Term
+import GrmVerif.Model.Cert
 /-!
 The recoverer that IS the model of CPCT+ (`lrpar/src/lib/cpctplus.rs`), in the shape the recovering
 driver `Rec.recRun` (the model of the loop of `Parser::lr`) takes its recoverer in.
@@ -17,14 +19,18 @@ sequence — seen through the interface of `recRun`:
   two loops of `dijkstra`; the real code has no such bound but a deadline (`finish_by`, 500 ms by
   default) after which `recover` reports no repairs. A search that runs out of `fuel` is modelled as
   exactly that: nothing is reported and the parse gives up at this error. Every theorem about
-  `cpctRecover` holds for EVERY value of `fuel` (the budget only decides whether something is reported);
-* `.panic` becomes `none` as well. This is a TOTALISATION: the model's `.panic` stands for a panic of the
-  real code (`unwrap` on a missing goto, `unreachable!()` in the merge closure, `rpr_seqs[0]` on an empty
-  group) or for the constant `FUEL` of `feed` running out inside `rank_cnds`/`apply_repairs`. That the
-  modelled recoverer never panics is NOT proved; `cpctOutcome` keeps the three cases apart so that
-  statements can say which one occurred, and the per-error tie of the check (`Mr`/`Ir` lines) would
-  break on a model panic where the real code reports. The theorems about what is reported and where
-  parsing continues are about the `.ok` case only and are unaffected.
+  `cpctRecover` holds for EVERY value of `fuel` (the budget only decides whether something is reported).
+  `.fuelOut` is also the answer when one run of reductions under one lookahead (`feed`) needs more than
+  the model's constant `FUEL` = 2000 steps, in the search or in `rank_cnds`/`apply_repairs`
+  (`Model/RankImpl.lean`, `rankCndsO`/`applyRepairsO`): the model cannot say what the real code does
+  then (it has no such bound) and does NOT call it a panic;
+* `.panic` becomes `none` as well. The model's `.panic` stands for a panic of the real code (`unwrap` on
+  a missing goto or an empty stack, `unreachable!()` in the merge closure, `todo[..]`, `rpr_seqs[0]`,
+  `rnk_rprs[0]`, `next_lexeme` past the end). It is PROVED not to occur (`C06.recover_never_panics`:
+  certified table, `state_actions` exact, costs ≥ 1, input of real tokens, error configuration whose
+  stack is a path of the automaton — which every configuration of a run is), so this arm of the
+  totalisation is dead in every run; `cpctOutcome` keeps the cases apart so that statements can say
+  which one occurred.
 
 `Parser::lr` calls `recover` only when the action of the top state on the next lexeme is `Error`, at
 a position inside the input (`laidx ≤ lexemes.len()`): `errCfg`. `cpctRecoverAt` is `cpctRecover`
@@ -57,7 +63,8 @@ inductive Outcome where
   | repaired
   /-- the search ended properly and found no repair (or `rank_cnds` kept none) -/
   | noRepair
-  /-- the search ran out of its budget (`fuel`; the real code: out of time) -/
+  /-- the search ran out of its budget (`fuel`; the real code: out of time), or a run of reductions
+  under one lookahead needed more than the model's constant `FUEL` steps -/
   | outOfBudget
   /-- the model of the real code panicked -/
   | panicked
@@ -77,6 +84,27 @@ def errCfg (G : Grammar) (A : Automaton) (w : List Nat) (c : Pos) : Bool :=
   (match c.stack with
    | st :: _ => A.action st (nextTok G w c.pos) == .error
    | [] => false)
+
+/-- decidable form of "the state stack (top first) is a path of the automaton from the start state"
+(`Term.IsPath`; `Cpct.isPathB_iff`): the bottom is the start state and every state is the target of an
+edge out of the state below it -/
+def isPathB (A : Automaton) : List Nat → Bool
+  | [] => false
+  | [s] => s == A.start
+  | t :: s :: rest => Term.adj A s t && isPathB A (s :: rest)
+
+/-- the input consists of tokens of the grammar other than end-of-input (`Cert.InputOk`, decidable form) -/
+def inputOkB (G : Grammar) (w : List Nat) : Bool := w.all (fun t => decide (t < G.ntoks) && t != G.eof)
+
+/-- the decidable hypotheses of `C06.recover_never_panics` about the table (evaluated once per table by
+the driver): the automaton passes `Cert.check`, `state_actions` is exact, `PARSE_AT_LEAST ≥ 1` -/
+def noPanicTableB (G : Grammar) (A : Automaton) (N : Nat) : Bool :=
+  Cert.check G A && stateActionsExactB G A && decide (1 ≤ N)
+
+/-- … and about one error: the input consists of real tokens, the configuration is one at which
+`Parser::lr` calls `recover`, its stack is a path of the automaton -/
+def noPanicCfgB (G : Grammar) (A : Automaton) (w : List Nat) (c : Pos) : Bool :=
+  inputOkB G w && errCfg G A w c && isPathB A c.stack
 
 /-- `cpctRecover` restricted to the configurations at which `Parser::lr` calls `recover` -/
 def cpctRecoverAt (E : Env) (hs : List Seq → List Seq) (avoid : Nat → Bool) (lexStart : Nat → Nat)
